@@ -15,12 +15,20 @@
 (*  variant[k |-> "variant", tag |-> s, val |-> value]                     *)
 (*  clo    [k |-> "clo",   fn |-> function AST, env |-> frame address]     *)
 (*  builtin[k |-> "builtin", name |-> s]                                   *)
+(* Numbers beyond the small model (numeric-limits dimension of C01):       *)
+(*  i64    [k |-> "i64", w |-> 8 bytes]  a 64-bit two's-complement int     *)
+(*         (SyltNum64) whose magnitude is >= MaxMag; smaller results are   *)
+(*         always the kind "int", so every int has ONE representation      *)
+(*  fbig   [k |-> "fbig", n |-> odd, e |-> >= 1]  the float n * 2^e, too    *)
+(*         large for the kind "float", below 2^1024                        *)
+(*  fx     [k |-> "fx", v |-> "inf" | "ninf" | "nan" | "nzero"]            *)
+(*         the IEEE-754 values without a finite magnitude, and -0.0        *)
 (* Heap objects: [k |-> "frame", vars, parent], [k |-> "list", items],     *)
 (*               [k |-> "blob", fields], [k |-> "set", items] (no two      *)
 (*               members StructEq), [k |-> "dict", keys, vals] (parallel   *)
 (*               sequences, no two keys StructEq)                          *)
 (***************************************************************************)
-EXTENDS Naturals, Integers, Sequences, FiniteSets, TLC
+EXTENDS Naturals, Integers, Sequences, FiniteSets, TLC, SyltNum64
 
 IntV(n)   == [k |-> "int", v |-> n]
 StrV(s)   == [k |-> "str", v |-> s]
@@ -73,6 +81,8 @@ IsErr(v) == v.k = "err"
 \* a product that would overflow TLC's 32-bit integers is (far) beyond the model limit MaxMag: outside the model
 MulTooBig(x, y) == x # 0 /\ Abs(y) > 2000000000 \div Abs(x)
 
+NegZero == [k |-> "fx", v |-> "nzero"]
+
 NumArith(op, a, b) ==
     IF op = "*" /\ MulTooBig(AsF(a)[1], AsF(b)[1]) THEN Err("drop:magnitude")
     ELSE IF a.k = "int" /\ b.k = "int" /\ op # "/"
@@ -82,9 +92,11 @@ NumArith(op, a, b) ==
     ELSE LET x == AsF(a)  y == AsF(b) IN
       CASE op \in {"+", "-"} ->
              LET c == Common(x, y) IN FloatV(IF op = "+" THEN c[1] + c[2] ELSE c[1] - c[2], c[3])
-        [] op = "*" -> FloatV(x[1] * y[1], x[2] + y[2])
+        [] op = "*" -> IF x[1] * y[1] = 0 /\ ((x[1] < 0) # (y[1] < 0)) THEN NegZero      \* 0.0 * -1.5 = -0.0
+                       ELSE FloatV(x[1] * y[1], x[2] + y[2])
         [] op = "/" ->
              IF y[1] = 0 THEN Err("drop:div-by-zero")
+             ELSE IF x[1] = 0 /\ y[1] < 0 THEN NegZero                               \* 0.0 / -2.0 = -0.0
              ELSE LET sgn == IF y[1] < 0 THEN 0 - 1 ELSE 1
                       yn == Abs(y[1])
                       o == OddPart(yn)
@@ -92,6 +104,140 @@ NumArith(op, a, b) ==
                   IF (x[1] % o) # 0 THEN Err("drop:inexact")
                   ELSE \* (x1/2^x2) / (o*2^t/2^y2) = (x1/o) * 2^y2 / 2^(x2+t)
                        FloatV(sgn * (x[1] \div o) * Pow2(y[2]), x[2] + t)
+
+(***************************************************************************)
+(* Numbers beyond the small model.  Ints: 64-bit words, arithmetic modulo  *)
+(* 2^64 (what Sylt's ints - Lua 5.3 integers - do at their limits).        *)
+(* Floats: IEEE-754 doubles restricted to values m * 2^x with |m| < MaxMag *)
+(* (every such value below 2^1024 is exactly representable, so + - * never *)
+(* round here; a result that would need rounding is "drop:inexact"), plus  *)
+(* the infinities, NaN and -0.0 with the IEEE rules for them.              *)
+(***************************************************************************)
+I64V(w) == [k |-> "i64", w |-> w]
+NxInt(w) == IF Fits24(w) /\ Abs(Small64(w)) < MaxMag THEN IntV(Small64(w)) ELSE I64V(w)
+NxWord(v) == IF v.k = "int" THEN FromInt64(v.v) ELSE v.w
+IsIntish(v) == v.k \in {"int", "i64"}
+
+FxV(s) == [k |-> "fx", v |-> s]
+FBigV(n, e) == [k |-> "fbig", n |-> n, e |-> e]
+IsFloatish(v) == v.k \in {"float", "fbig", "fx"}
+IsNxNum(v) == v.k \in {"i64", "fbig", "fx"}
+
+NxClass(v) == CASE v.k = "fx" -> (IF v.v = "nan" THEN "nan" ELSE IF v.v = "nzero" THEN "zero" ELSE "inf")
+                [] v.k = "float" -> (IF v.n = 0 THEN "zero" ELSE "fin")
+                [] v.k = "fbig" -> "fin"
+NxNegative(v) == CASE v.k = "fx" -> v.v \in {"ninf", "nzero"}
+                   [] OTHER -> v.n < 0
+\* a finite non-zero float as <<m, x>> = m * 2^x
+NxMX(v) == IF v.k = "float" THEN <<v.n, 0 - v.d>> ELSE <<v.n, v.e>>
+NxZero(neg) == IF neg THEN NegZero ELSE [k |-> "float", n |-> 0, d |-> 0]
+NxInfV(neg) == IF neg THEN FxV("ninf") ELSE FxV("inf")
+BitLen(n) == LET RECURSIVE L(_)
+                 L(m) == IF m = 0 THEN 0 ELSE 1 + L(m \div 2)
+             IN L(Abs(n))
+
+\* the float m * 2^x (m # 0) in canonical form: overflow gives an infinity
+NxFin(m, x) ==
+    LET o == OddPart(m)
+        y == x + TwoExp(m)
+        a == Abs(o) IN
+    IF y >= 1024 \/ (y > 993 /\ a >= Pow2(1024 - y)) THEN NxInfV(o < 0)
+    ELSE IF y < 0 - 1074 THEN Err("drop:inexact")
+    ELSE IF a >= MaxMag THEN Err("drop:magnitude")
+    ELSE IF y <= 0 THEN (IF 0 - y <= MaxExp THEN [k |-> "float", n |-> o, d |-> 0 - y] ELSE Err("drop:magnitude"))
+    ELSE IF y <= 20 /\ a <= (MaxMag - 1) \div Pow2(y) THEN [k |-> "float", n |-> o * Pow2(y), d |-> 0]
+    ELSE FBigV(o, y)
+
+NxFNeg(a) == CASE a.k = "fx" -> (CASE a.v = "inf" -> FxV("ninf") [] a.v = "ninf" -> FxV("inf")
+                                   [] a.v = "nzero" -> NxZero(FALSE) [] a.v = "nan" -> a)
+               [] a.k = "float" -> (IF a.n = 0 THEN NegZero ELSE [a EXCEPT !.n = 0 - a.n])
+               [] a.k = "fbig" -> [a EXCEPT !.n = 0 - a.n]
+
+NxFMul(a, b) ==
+    LET ca == NxClass(a)  cb == NxClass(b)  neg == NxNegative(a) # NxNegative(b) IN
+    IF ca = "nan" \/ cb = "nan" THEN FxV("nan")
+    ELSE IF (ca = "inf" /\ cb = "zero") \/ (ca = "zero" /\ cb = "inf") THEN FxV("nan")
+    ELSE IF ca = "inf" \/ cb = "inf" THEN NxInfV(neg)
+    ELSE IF ca = "zero" \/ cb = "zero" THEN NxZero(neg)
+    ELSE LET x == NxMX(a)  y == NxMX(b) IN
+         IF MulTooBig(x[1], y[1]) THEN Err("drop:magnitude") ELSE NxFin(x[1] * y[1], x[2] + y[2])
+
+NxFDiv(a, b) ==
+    LET ca == NxClass(a)  cb == NxClass(b)  neg == NxNegative(a) # NxNegative(b) IN
+    IF ca = "nan" \/ cb = "nan" THEN FxV("nan")
+    ELSE IF (ca = "inf" /\ cb = "inf") \/ (ca = "zero" /\ cb = "zero") THEN FxV("nan")
+    ELSE IF ca = "inf" THEN NxInfV(neg)
+    ELSE IF cb = "inf" THEN NxZero(neg)
+    ELSE IF cb = "zero" THEN Err("drop:div-by-zero")
+    ELSE IF ca = "zero" THEN NxZero(neg)
+    ELSE LET x == NxMX(a)  y == NxMX(b)
+             o == Abs(OddPart(y[1])) IN
+         IF (x[1] % o) # 0 THEN Err("drop:inexact")
+         ELSE NxFin((IF y[1] < 0 THEN 0 - 1 ELSE 1) * (x[1] \div o), x[2] - y[2] - TwoExp(y[1]))
+
+NxFAdd(a, b) ==
+    LET ca == NxClass(a)  cb == NxClass(b) IN
+    IF ca = "nan" \/ cb = "nan" THEN FxV("nan")
+    ELSE IF ca = "inf" /\ cb = "inf" THEN (IF NxNegative(a) = NxNegative(b) THEN a ELSE FxV("nan"))
+    ELSE IF ca = "inf" THEN a
+    ELSE IF cb = "inf" THEN b
+    ELSE IF ca = "zero" /\ cb = "zero" THEN NxZero(NxNegative(a) /\ NxNegative(b))
+    ELSE IF ca = "zero" THEN b
+    ELSE IF cb = "zero" THEN a
+    ELSE LET x == NxMX(a)  y == NxMX(b)
+             lo == IF x[2] < y[2] THEN x[2] ELSE y[2]
+             dx == x[2] - lo
+             dy == y[2] - lo IN
+         IF dx > 29 \/ dy > 29 THEN Err("drop:inexact")
+         ELSE IF Abs(x[1]) > 1000000000 \div Pow2(dx) \/ Abs(y[1]) > 1000000000 \div Pow2(dy) THEN Err("drop:magnitude")
+         ELSE LET t == x[1] * Pow2(dx) + y[1] * Pow2(dy) IN
+              IF t = 0 THEN NxZero(FALSE) ELSE NxFin(t, lo)
+
+\* "lt" | "eq" | "gt" | "un" (unordered: a NaN is involved; every comparison with it is false)
+NxFCmp(a, b) ==
+    LET ca == NxClass(a)  cb == NxClass(b)
+        Key(v, c) == CASE c = "zero" -> 0
+                       [] c = "inf" -> (IF NxNegative(v) THEN 0 - 2 ELSE 2)
+                       [] c = "fin" -> (IF NxNegative(v) THEN 0 - 1 ELSE 1)
+        ka == Key(a, ca)
+        kb == Key(b, cb) IN
+    IF ca = "nan" \/ cb = "nan" THEN "un"
+    ELSE IF ka < kb THEN "lt"
+    ELSE IF ka > kb THEN "gt"
+    ELSE IF ca # "fin" THEN "eq"
+    ELSE LET x == NxMX(a)  y == NxMX(b)
+             ha == BitLen(x[1]) + x[2]       \* 2^(h-1) <= |value| < 2^h
+             hb == BitLen(y[1]) + y[2]
+             \* same sign, same binade: the exponents differ by less than 31
+             lo == IF x[2] < y[2] THEN x[2] ELSE y[2]
+             larger == IF ha # hb THEN (IF ha > hb THEN "a" ELSE "b")
+                       ELSE LET p == Abs(x[1]) * Pow2(x[2] - lo)  q == Abs(y[1]) * Pow2(y[2] - lo) IN
+                            IF p > q THEN "a" ELSE IF p < q THEN "b" ELSE "-" IN
+         IF larger = "-" THEN "eq"
+         ELSE IF (larger = "a") = (ka > 0) THEN "gt" ELSE "lt"
+
+NxEq(a, b) == IF IsIntish(a) /\ IsIntish(b) THEN NxWord(a) = NxWord(b)
+              ELSE IF IsFloatish(a) /\ IsFloatish(b) THEN NxFCmp(a, b) = "eq"
+              ELSE FALSE
+NxCmp(a, b) == IF IsIntish(a) /\ IsIntish(b)
+               THEN LET x == NxWord(a)  y == NxWord(b) IN IF x = y THEN "eq" ELSE IF SLt64(x, y) THEN "lt" ELSE "gt"
+               ELSE IF IsFloatish(a) /\ IsFloatish(b) THEN NxFCmp(a, b)
+               ELSE "bad"
+NxArith(op, a, b) ==
+    IF IsIntish(a) /\ IsIntish(b)
+    THEN LET x == NxWord(a)  y == NxWord(b) IN
+         CASE op = "+" -> NxInt(Add64(x, y))
+           [] op = "-" -> NxInt(Sub64(x, y))
+           [] op = "*" -> NxInt(Mul64(x, y))
+           [] op = "/" -> Err("drop:i64-division")       \* int / int is a float; the conversion rounds
+    ELSE IF IsFloatish(a) /\ IsFloatish(b)
+    THEN CASE op = "+" -> NxFAdd(a, b)
+           [] op = "-" -> NxFAdd(a, NxFNeg(b))
+           [] op = "*" -> NxFMul(a, b)
+           [] op = "/" -> NxFDiv(a, b)
+    ELSE Err("stuck:arith-" \o a.k \o "-" \o b.k)
+NxText(v) == CASE v.k = "i64" -> Text64(v.w)
+               [] v.k = "fx" -> (CASE v.v = "inf" -> "inf" [] v.v = "ninf" -> "-inf" [] v.v = "nan" -> "nan" [] v.v = "nzero" -> "-0.0")
 
 CharCode(c) == CASE c = "a" -> 1 [] c = "b" -> 2 [] c = "c" -> 3 [] c = "d" -> 4 [] c = "x" -> 24 [] c = "y" -> 25
                  [] c = " " -> 0 [] OTHER -> 30
@@ -104,7 +250,8 @@ StrLt(s, t) == IF Len(t) = 0 THEN FALSE
 (* Structural equality; `heap` resolves references *)
 RECURSIVE StructEq(_, _, _)
 StructEq(a, b, heap) ==
-    IF IsNum(a) /\ IsNum(b) THEN NumEq(a, b)
+    IF IsNxNum(a) \/ IsNxNum(b) THEN NxEq(a, b)
+    ELSE IF IsNum(a) /\ IsNum(b) THEN NumEq(a, b)
     ELSE IF a.k # b.k THEN FALSE
     ELSE CASE a.k = "str" -> a.v = b.v
            [] a.k = "bool" -> a.v = b.v
@@ -134,7 +281,8 @@ StructEq(a, b, heap) ==
 (* The one order: numbers, strings, tuples lexicographically. Returns "lt" | "eq" | "gt" | "bad" *)
 RECURSIVE Cmp3(_, _, _)
 Cmp3(a, b, heap) ==
-    IF IsNum(a) /\ IsNum(b) THEN (IF NumLt(a, b) THEN "lt" ELSE IF NumEq(a, b) THEN "eq" ELSE "gt")
+    IF IsNxNum(a) \/ IsNxNum(b) THEN NxCmp(a, b)
+    ELSE IF IsNum(a) /\ IsNum(b) THEN (IF NumLt(a, b) THEN "lt" ELSE IF NumEq(a, b) THEN "eq" ELSE "gt")
     ELSE IF a.k = "str" /\ b.k = "str" THEN (IF a.v = b.v THEN "eq" ELSE IF StrLt(a.v, b.v) THEN "lt" ELSE "gt")
     ELSE IF a.k = "tuple" /\ b.k = "tuple" /\ Len(a.es) = Len(b.es)
       THEN LET RECURSIVE Lex(_)
@@ -146,7 +294,8 @@ Cmp3(a, b, heap) ==
 (* + - * / on values: numbers, strings (+), tuples element-wise, tuple / number *)
 RECURSIVE Arith(_, _, _)
 Arith(op, a, b) ==
-    IF IsNum(a) /\ IsNum(b) THEN NumArith(op, a, b)
+    IF IsNxNum(a) \/ IsNxNum(b) THEN NxArith(op, a, b)
+    ELSE IF IsNum(a) /\ IsNum(b) THEN NumArith(op, a, b)
     ELSE IF a.k = "str" /\ b.k = "str" /\ op = "+" THEN StrV(a.v \o b.v)
     ELSE IF a.k = "tuple" /\ b.k = "tuple" /\ Len(a.es) = Len(b.es)
       THEN LET rs == [i \in 1..Len(a.es) |-> Arith(op, a.es[i], b.es[i])] IN
@@ -162,7 +311,8 @@ Arith(op, a, b) ==
 
 RECURSIVE Negate(_)
 Negate(a) == CASE a.k = "int" -> IntV(0 - a.v)
-               [] a.k = "float" -> FloatV(0 - a.n, a.d)
+               [] a.k = "i64" -> NxInt(Neg64(a.w))            \* -MIN = MIN
+               [] a.k \in {"float", "fbig", "fx"} -> NxFNeg(a)   \* -(0.0) = -0.0
                [] a.k = "tuple" -> TupleV([i \in 1..Len(a.es) |-> Negate(a.es[i])])
                [] OTHER -> Err("stuck:neg-" \o a.k)
 
@@ -183,6 +333,7 @@ Render(v, heap, depth) ==
                 ELSE [k |-> "blob"]
            [] v.k = "clo" -> [k |-> "fn"]
            [] v.k = "builtin" -> [k |-> "fn"]
+           [] v.k \in {"i64", "fx"} -> [k |-> v.k, text |-> NxText(v)]
            [] OTHER -> v
 
 (***************************************************************************)
@@ -210,7 +361,7 @@ FloatText(n, d) ==
 
 RECURSIVE Printable(_)
 Printable(r) ==
-    CASE r.k \in {"int", "str", "bool", "nil"} -> TRUE
+    CASE r.k \in {"int", "str", "bool", "nil", "i64", "fx"} -> TRUE
       [] r.k = "float" -> FloatPrintable(r.n, r.d)
       [] r.k \in {"tuple", "list"} -> \A i \in 1..Len(r.es) : Printable(r.es[i])
       [] r.k = "variant" -> Printable(r.val)
@@ -226,6 +377,7 @@ SnapText(r) ==
     IN CASE r.k = "int" -> ToString(r.v)
          [] r.k = "float" -> FloatText(r.n, r.d)
          [] r.k = "str" -> r.v
+         [] r.k \in {"i64", "fx"} -> r.text
          [] r.k = "bool" -> (IF r.v THEN "true" ELSE "false")
          [] r.k = "nil" -> "nil"
          [] r.k = "tuple" -> IF Len(r.es) = 1 THEN "(" \o SnapText(r.es[1]) \o ",)" ELSE "(" \o Join(r.es, 1) \o ")"
